@@ -14,7 +14,7 @@
    names on every construction), which is how the model selects. *)
 From Coq Require Import ZArith List Bool.
 From Batchie Require Import Lib.Sexp Generated.Consts Model.Encode Model.Screen Model.Reveal Model.Holdout
-  Proofs.C03Base Proofs.C03Screen Proofs.C12Reveal Proofs.C12Counters Proofs.C03Frozen Proofs.C12Defined Proofs.C03Witness.
+  Proofs.C03Base Proofs.C03Screen Proofs.C12Reveal Proofs.C12Counters Proofs.C03Frozen Proofs.C12Defined Proofs.C03Witness Proofs.C12Examples.
 Import ListNotations.
 Open Scope Z_scope.
 
@@ -218,10 +218,8 @@ Proof. exact save_load_exact. Qed.
 Print Assumptions C12_save_load_exact.
 
 (* ---- non-vacuity (vm_compute).  w_parent (Proofs/C03Witness.v): plates p0 (unobserved, values 0.5 0.25),
-   p1, p2 (observed); plate ids 0 1 2. ---- *)
-Definition view (r : result screen) : option (list bool * nat) :=
-  match r with Ok s => Some (map r_mask (s_rows s), n_unobserved_plates s) | Err _ => None end.
-
+   p1, p2 (observed); plate ids 0 1 2.  view r = (masks, n_unobserved_plates) of an Ok result; zrow p obs = an
+   unobserved row on plate p with stored bits obs (Proofs/C12Examples.v). ---- *)
 (* reveal plate 0, named twice, among an already observed and an unknown id: exactly p0 becomes observed,
    the counter drops from 1 to 0 = by the one newly revealed plate *)
 Example C12_reveal_example :
@@ -237,8 +235,6 @@ Example C12_reveal_observed_example :
 Proof. vm_compute. repeat split; reflexivity. Qed.
 
 (* a plate whose stored values are +0.0 and -0.0 is refused (8); one containing a NaN is refused (9) *)
-Definition zrow (p obs : Z) : row :=
-  {| r_sample := [97]; r_plate := [p]; r_treats := [([120], 1)]; r_obs := obs; r_mask := false |}.
 Example C12_refuse_example :
   (dor s <- mk_screen [zrow 48 0; zrow 48 two63; zrow 49 9221120237041090560; zrow 49 4602678819172646912] 1 [] None None true true;
    Ok (reveal_plates (carry_mappings false) s [0], reveal_plates (carry_mappings false) s [1],
@@ -259,3 +255,10 @@ Example C12_set_observed_example :
        reveal_plates (carry_mappings false) s [1]))
   = Ok ([4607182418800017408; 4598175219545276416], [true; false], false, Err 2).
 Proof. vm_compute. reflexivity. Qed.
+
+(* plate ids are per screen: the training half of the witness split lost plate p0, so its plates p1 p2 have
+   ids 0 1 while the parent numbers them 1 2; reveal_plates(train, [0]) therefore addresses p1 *)
+Example C12_plate_ids_per_screen_example :
+  s_pids w_parent = [0; 0; 1; 1; 2; 2] /\ map r_plate (s_rows w_train) = map r_plate (skipn 2 (s_rows w_parent)) /\
+  s_pids w_train = [0; 0; 1; 1].
+Proof. vm_compute. repeat split; reflexivity. Qed.
